@@ -372,4 +372,33 @@ def evalName {V : Type} (ns : Dict V) (suggestions : List String) (name : String
   | some v => .bound v
   | none => undefinedOutcome name suggestions
 
+/-! ### eval inside a history of operations on the container
+
+The namespace of `eval` is built from the store as it is at the moment of the call
+(`{x: self[x] for x in self.index}`): nothing is remembered from one call to the next. -/
+
+/-- Operations between (and including) `eval` calls, as far as the variable store is concerned. -/
+inductive StoreOp (V : Type) where
+  | rebind (name : String) (v : V)          -- `obj.X = [list]`, `obj['X'] = (tuple)`, `replace_values(X=range(n))`: a NEW array under the name
+  | inplace (name : String) (f : V → V)     -- `obj.X[i] = v`, `obj.X = 5.0`, `obj.X = ndarray`: the same array, changed
+  | add (name : String) (v : V)             -- `add_variable`
+  | eval                                    -- an `eval()` call: reads, changes nothing
+
+def applyOp {V : Type} (s : Dict V) : StoreOp V → Dict V
+  | .rebind n v => (n, v) :: s
+  | .inplace n f => s.map fun kv => if kv.1 == n then (kv.1, f kv.2) else kv
+  | .add n v => s ++ [(n, v)]
+  | .eval => s
+
+def applyOps {V : Type} (s : Dict V) (ops : List (StoreOp V)) : Dict V := ops.foldl applyOp s
+
+def StoreOp.isEval {V : Type} : StoreOp V → Bool
+  | .eval => true
+  | _ => false
+
+/-- The namespace an `eval()` call assembles after the history `ops` (with `builtins=None`). -/
+def namespaceAfter {V : Type} (w : NsWorld V) (s0 : Dict V) (ops : List (StoreOp V)) (locals_ : Option (Dict V)) :
+    Dict V :=
+  (assemble w none (applyOps s0 ops) locals_).1.read (assemble w none (applyOps s0 ops) locals_).2
+
 end Fsic.EvalIdx
